@@ -69,6 +69,20 @@ def is_pre(op: int) -> bool:
 BOUNDARY_BYTES: Tuple[int, ...] = (0x00, 0x01, 0x07, 0x0F, 0x10, 0x7F, 0x80, 0xEC, 0xFB, 0xFF)
 
 
+_VALID_B2: dict = {}
+
+
+def valid_b2(op: int) -> List[int]:
+    """Second-byte values for which the repository's decoder accepts `op b2 00 00 00 00` (computed by asking the
+    decoder, cached per process).  Used only to *construct* candidates; acceptance of the final byte string is
+    still decided by the decoder."""
+    v = _VALID_B2.get(op)
+    if v is None:
+        v = [b2 for b2 in range(256) if info_len(bytes([op, b2, 0, 0, 0, 0]) + NOP_PAD) is not None]
+        _VALID_B2[op] = v
+    return v
+
+
 def sample_valid_encodings(seed: int, count: int, pres: Sequence[Optional[int]] = PRES,
                            opcodes: Optional[Sequence[int]] = None,
                            addr: int = 0x1000) -> Tuple[List[Tuple[Optional[int], bytes]], int]:
@@ -88,6 +102,9 @@ def sample_valid_encodings(seed: int, count: int, pres: Sequence[Optional[int]] 
         for attempt in range(8):
             h = mix32(seed, i, attempt, 77)
             b2 = BOUNDARY_BYTES[h % len(BOUNDARY_BYTES)] if (h >> 8) % 4 == 0 else (h >> 16) & 0xFF
+            vb = valid_b2(op)
+            if vb and b2 not in vb and attempt < 7:
+                b2 = vb[(h >> 12) % len(vb)]
             tail = bytearray(hash_tail(h, pre, op, b2, 5))
             for j in range(5):
                 hh = mix32(h, j, 5)
